@@ -122,7 +122,7 @@ func c13CheckErr(a *ChildArgs, ep, input string, err error, lexical bool, limit 
 			// column may point one past the end of the line (end of input); tabs are not expanded here
 			// (the tokenizer counts a tab as more than one column: allow its documented tab width)
 			// (the tokenizer counts a tab as four columns: one byte plus three)
-			if sh.Col > len(lines[sh.Line-1])+2+3*strings.Count(lines[sh.Line-1], "\t") {
+			if sh.Col > len(lines[sh.Line-1])+1+3*strings.Count(lines[sh.Line-1], "\t") {
 				okLoc = false
 			}
 		}
@@ -356,6 +356,14 @@ func c13Child(a *ChildArgs) {
 						c13Input(a, "SELECT a.id, b.id FROM accounts AS a "+opener+sep+next+" "+bad, "")
 					}
 				}
+			}
+		}
+		// statements rejected at the end of the input, with line ends, blank lines or a comment line behind the last
+		// token (the location is one past the last token at most)
+		for _, cut := range []string{"SELECT a FROM", "SELECT a,", "INSERT INTO t (a, b) VALUES (1,", "UPDATE t SET a =", "SELECT a FROM t WHERE b IN (1, 2", "CREATE TABLE t (a INT,", "SELECT a FROM t ORDER BY"} {
+			for _, tail := range []string{"\n", "\n\n\n", "\n-- trailing note\n", "\r\n", " \n", "\n  "} {
+				c13Input(a, cut+tail, "")
+				c13Input(a, "SELECT 1;\n"+cut+tail, "")
 			}
 		}
 		big := "SELECT 1 " + strings.Repeat(" ", tokenizer.MaxInputSize)
